@@ -263,6 +263,20 @@ def time_limit_runs(cfg, limits):
                 except ExceededMaxtimeError:
                     interrupted += 1
                 except SpecificationNotFound:
+                    # the queue signalled exhaustion: every label that was handed out at all, is not stopped and not verified,
+                    # must have received its initial strategies and every expansion set - over all the calls together
+                    if interrupted:
+                        want = (1 if pack.initial_strats else 0) + len(pack.expansion_strats)
+                        got = {}
+                        for lbl, _strats, inferral, _h in packets:
+                            if not inferral:
+                                got[lbl] = got.get(lbl, 0) + 1
+                        ign = set(s.classqueue.ignore)
+                        for lbl, k in sorted(got.items()):
+                            if k < want and lbl not in ign and not s.ruledb.is_verified(lbl):
+                                problems.append(("interrupted-search-exhausts-the-queue-without-all-work-for-a-label",
+                                                 f"limit={limit}, interrupted {interrupted} times: label {lbl} got {k} of {want} non-inferral packets"))
+                                break
                     if ref == "spec" and interrupted:
                         problems.append(("interrupted-search-gives-up-although-the-uninterrupted-one-finds-a-specification",
                                          f"limit={limit}, interrupted {interrupted} times, {len(packets)} packets taken"))
@@ -350,7 +364,12 @@ def run(tier, seed, factor=1):
                 "going through the C01/C02 machinery; non-trivial = >=3 interruption points; distinct by config")
     rnd = random.Random(seed * 1000003 + 17)
     jobs = []
-    for c in speccheck.make_configs(rnd, common.scale(tier, 60, 700) * factor):
+    cfgs = speccheck.make_configs(rnd, common.scale(tier, 60, 700) * factor)
+    for _ in range(common.scale(tier, 20, 200) * factor):  # expansion sets with several strategies: several packets staged per class
+        c = specrun.rand_config(rnd, "rot")
+        c["rot"] = rnd.choice([True, "two", "two"])
+        cfgs.append(c)
+    for c in cfgs:
         c["smallest"] = False
         jobs.append(("word", c, tier))
     for i in range(common.scale(tier, 60, 700) * factor):
